@@ -190,7 +190,7 @@ def shard(ctx, n, sub, n_sched):
 
 def main(ctx):
     if ctx.is_quick():
-        ctx.shards("shard", [{"n": 5, "sub": s, "n_sched": 5} for s in range(16)], timeout=600)
+        ctx.shards("shard", [{"n": 5, "sub": s, "n_sched": 4} for s in range(16)], timeout=900)
     else:
         ctx.shards("shard", [{"n": 60, "sub": s, "n_sched": 12} for s in range(16)], timeout=3400)
     ctx.require("runs", 500)
